@@ -571,6 +571,20 @@ def _r098(ck, prog, cfg):
     ch = lib2.iter_chain(f, o) if "c" not in o else []
     # iter_chain stops at non-iterator calls: walk through Option::unwrap_or & co. first
     s = src_of_operand(f, o, through_calls=(r"Option::<.*>::(unwrap_or|unwrap_or_default|unwrap_or_else|map_or)(::<.*>)?$",)) if "c" not in o else None
+    if s is not None and s.kind in ("path", "multi") and s.local is not None and s.local > f.d["argc"]:
+        # `match it.max() { Some(seq) => seq, None => 0 }`: unwrap_or written by hand - follow the non-constant arm
+        live = [d for d in f.defs().get(s.local, []) if d[2] == "assign" and d[3]["k"] == "use" and "c" not in d[3]["a"]]
+        consts = [d for d in f.defs().get(s.local, []) if d[2] == "assign" and d[3]["k"] == "use" and "c" in d[3]["a"]]
+        if len(live) == 1 and len(live) + len(consts) == len(f.defs().get(s.local, [])):
+            pl_ = op_place(live[0][3]["a"])
+            if pl_ is not None:
+                s2 = src_of_operand(f, {"cp": {"l": pl_["l"]}}, through_calls=(r"Option::<.*>::(unwrap_or|unwrap_or_default|unwrap_or_else|map_or)(::<.*>)?$",))
+                while s2.kind in ("path", "multi") and s2.local is not None and s2.local > f.d["argc"]:
+                    d2 = [d for d in f.defs().get(s2.local, []) if d[2] == "assign" and d[3]["k"] == "use" and "c" not in d[3]["a"]]
+                    if len(d2) != 1 or op_place(d2[0][3]["a"]) is None or op_place(d2[0][3]["a"])["l"] == s2.local:
+                        break
+                    s2 = src_of_operand(f, {"cp": {"l": op_place(d2[0][3]["a"])["l"]}})
+                s = s2
     names = []
     if s is not None and s.kind == "call":
         cur = s
